@@ -98,6 +98,8 @@ type Confirmation struct {
 	Recipient    *string
 	NotOnOrAfter *string
 	Method       string
+	NotBefore    *string // optional lower bound of the confirmation's own window
+	Address      *string
 }
 
 // Attr is one attribute.
@@ -226,6 +228,8 @@ func (a *Assertion) Element() *etree.Element {
 				setOpt(d, "InResponseTo", c.InResponseTo)
 				setOpt(d, "NotOnOrAfter", c.NotOnOrAfter)
 				setOpt(d, "Recipient", c.Recipient)
+				setOpt(d, "NotBefore", c.NotBefore)
+				setOpt(d, "Address", c.Address)
 			}
 		}
 	}
